@@ -183,7 +183,8 @@ def _pick_fields(rng, spec):
 
 
 def _gen_lens(rng, family):
-    kw = dict(nsurf=(2, 9), glass_p=0.5, conic_p=0.3, asphere_p=0.15, neg_power_p=0.1, finite_p=0.45,
+    a_ = L.loguniform(rng, 1.0, 10.0)
+    kw = dict(semi=a_, nsurf=(2, 9), glass_p=0.5, conic_p=0.3, asphere_p=0.15, neg_power_p=0.1, finite_p=0.45,
               image='paraxial' if rng.random() < 0.75 else 'any')
     if family not in ABCD_FAMILIES and rng.random() < 0.12:
         kw['mirrors_p'] = 0.3
@@ -215,6 +216,10 @@ def _gen_lens(rng, family):
                 f[2] = round(float(rng.uniform(0, 0.4)), 3)
         vig = True
     info = dict(info, vig=vig, img=img_cls)
+    if family in ('spot', 'fan', 'ee', 'operands') and rng.random() < 0.25:
+        # a lens that is NOT rotationally symmetric (small tilts / decentres): x and y fans, x and y spot widths of the
+        # axial field differ - nothing may be inferred from symmetry
+        info['decorated'] = L.decorate(spec, rng, a_, freeform_p=0.0, big_tilt_p=0.0)
     return spec, info
 
 
@@ -773,6 +778,13 @@ def fam_fieldcurv(ctx, rec, c):
     f = f if np.isfinite(f) and f > 0 else 1.0
     surfs = ctx.spec['surfaces']
     nfin = 0
+    it_tol = max([float(s_.get('tol', 1e-10)) for s_ in surfs if s_.get('type', 'standard') != 'standard'] + [0.0])
+    it_allow = 0.0
+    if it_tol:
+        P0_ = ctx.psys()
+        _, ua_ = P0_.marginal(L.epd_of(ctx.spec, P0_))
+        it_allow = 8 * it_tol / (2e-5 * max(abs(float(ua_[-1])), 1e-12))
+        rec.cls('fieldcurv-with-iterated-surfaces')
     for k, w in enumerate(W):
         P, D, _ = ctx.generic(np.zeros(npts), Hy.copy(), 0.0, 0.0, w)
         rec.event('rays_recomputed', npts)
@@ -792,6 +804,11 @@ def fam_fieldcurv(ctx, rec, c):
             var[1:] = np.fmax(var[1:], np.abs(np.diff(wz)))
             var[:-1] = np.fmax(var[:-1], np.abs(np.diff(wz)))
             scale = scale + np.where(np.isfinite(var), var, 0.0) * (1e-3 / 5e-6)
+            # ... and with iterated (sag-defined) surfaces each ray of the pair carries the intersection tolerance (1e-10
+            # by default) while the two rays are only 2 delta |u'| = 2e-5 |u'| apart in angle: the crossing point is uncertain
+            # by tol / (2 delta |u'|), which shows as isolated spikes where the two rays took different numbers of iterations
+            if it_allow:
+                scale = scale + it_allow / 5e-6
             rec.close(f'field-curvature-{name}', got, want, 5e-6, scale=scale,
                       msg=f'{name} focus shift at wavelength {w} differs from Coddington\'s equations along the chief ray',
                       detail=dict(f=f, Hy=Hy))
@@ -901,6 +918,8 @@ def check_case(case, rec):
         rec.cls(case['info'].get('img', 'img-plane'))
         if case.get('edits'):
             rec.cls('edited-after-first-use')
+        if case['info'].get('decorated'):
+            rec.cls('lens-not-rotationally-symmetric')
     rec.cls(f'family-{fam}', f'field-{ctx.ftype}', f'nwl-{len(ctx.lw)}')
     if 'dist' in c:
         rec.cls(f'dist-{c["dist"]}')
